@@ -1,10 +1,11 @@
 """C20 — polarization-model algebra is consistent across representations (DESIGN.md section 7, C20)."""
 import math
+import os
 import itertools
 import numpy
 
 import corr_gen
-from common import out, rng, Driver, f2b, b2f
+from common import out, rng, Driver, f2b, b2f, scratch
 
 GEN = ['model_q', 'model_u', 'model_pd', 'model_pa', 'pdpa_to_xy', 'field_delta', 'radial_pa', 'tangential_pa', 'pl_integral', 'pl_norm']
 TRUSTED = ['Lean 4.33 kernel + Mathlib', 'axioms: propext, Classical.choice, Quot.sound', 'translator (validated every run)',
@@ -197,6 +198,41 @@ def o_broadband(a):
     return ok, obs
 
 
+def o_pdamap(a):
+    """sky maps of polarization degree and angle (radians, as the package documents) → Stokes maps → degree and angle at the grid nodes: the
+    identity modulo 180°, also for angle maps that wind past one turn (a spiral pattern) or are negative"""
+    from astropy.io import fits
+    from ixpeobssim.srcmodel.polarization import xStokesSkyMap
+    g = numpy.random.default_rng(a['seed'])
+    ny, nx = a['shape']
+    yy, xx = numpy.mgrid[0:ny, 0:nx]
+    r = numpy.hypot(xx - nx / 2., yy - ny / 2.)
+    pdm = 0.3 + 0.4 * xx / float(nx) + 0.1 * yy / float(ny)          # smooth maps: the interpolation between nodes is not the point here
+    pam = a['pa0'] + a['k'] * r                         # radians; spans a['pa0'] … a['pa0'] + k·r_max
+    h = fits.Header()
+    h['CTYPE1'], h['CTYPE2'] = 'RA---TAN', 'DEC--TAN'
+    h['CRPIX1'], h['CRPIX2'] = nx / 2. + 0.5, ny / 2. + 0.5
+    h['CRVAL1'], h['CRVAL2'] = a['ra'], a['dec']
+    h['CDELT1'], h['CDELT2'] = -6. / 3600., 6. / 3600.
+    with scratch() as d:
+        paths = []
+        for nm, arr in (('pd', pdm), ('pa', pam)):
+            mp = os.path.join(d, '%s.fits' % nm)
+            fits.PrimaryHDU(data=arr, header=h).writeto(mp, overwrite=True)
+            paths.append(mp)
+        sm = xStokesSkyMap.load_from_pda(*paths)
+        from astropy import wcs as awcs
+        w = awcs.WCS(h)
+        ra, dec = w.wcs_pix2world(xx.ravel().astype(float), yy.ravel().astype(float), 0)
+        pd_back = numpy.asarray(sm.polarization_degree(ra, dec), dtype=float)
+        pa_back = numpy.asarray(sm.polarization_angle(ra, dec), dtype=float)
+    inner = ((xx > 0) & (xx < nx - 1) & (yy > 0) & (yy < ny - 1)).ravel()
+    dpd = float(numpy.abs(pd_back - pdm.ravel())[inner].max())
+    dd = (pa_back - pam.ravel()) % math.pi
+    dpa = float(numpy.minimum(dd, math.pi - dd)[inner].max())
+    return dpd < 0.08 and dpa < 0.25, dict(max_degree_err=dpd, max_angle_err_rad=dpa, angle_range=[float(pam.min()), float(pam.max())])
+
+
 def o_refused(a):
     """degrees outside [0, 1] are refused by the simulator, inside accepted"""
     from ixpeobssim.irf import load_modf, DEFAULT_IRF_NAME
@@ -245,7 +281,7 @@ def o_refused(a):
     return ok, obs
 
 
-ORACLES = dict(roundtrip=o_roundtrip, harmonic=o_harmonic, component=o_component, fields=o_fields, pl=o_pl, broadband=o_broadband, refused=o_refused)
+ORACLES = dict(roundtrip=o_roundtrip, harmonic=o_harmonic, component=o_component, fields=o_fields, pl=o_pl, broadband=o_broadband, refused=o_refused, pdamap=o_pdamap)
 
 
 def run_oracle(chk, name, a, nontrivial=True):
@@ -298,6 +334,9 @@ def explore(chk, budget=1):
         k = 60
         run_oracle(chk, 'fields', dict(ra0=ra0, dec0=dec0, ra=(ra0 + g.uniform(-0.1, 0.1, k)).tolist() + [ra0, ra0 + 0.01], dec=(dec0 + g.uniform(-0.1, 0.1, k)).tolist() + [dec0 + 0.01, dec0]))
         run_oracle(chk, 'component', dict(comps=[(float(g.uniform(1, 10)), float(g.uniform(1, 3)), float(g.choice([0., g.uniform(0, 1)])), float(g.uniform(-1.5, 1.5))) for _ in range(int(g.integers(1, 5)))]))
+        if i % 3 == 0:
+            run_oracle(chk, 'pdamap', dict(shape=(int(g.integers(36, 48)), int(g.integers(36, 48))), pa0=float(g.choice([-1., 0., -2.5])), k=float(g.choice([0.02, 0.25, 0.3])),
+                                           ra=float(g.uniform(5, 355)), dec=float(g.uniform(-60, 60)), seed=int(g.integers(1, 10 ** 6))))
         run_oracle(chk, 'broadband', dict(norm=float(g.uniform(1, 10)), index=float(g.uniform(0.5, 3)), pd=float(g.uniform(0, 1)), pa=float(g.uniform(-1.5, 1.5)),
                                           emin=float(g.uniform(1, 3)), emax=float(g.uniform(5, 10))))
         degs = g.uniform(0, 1, 5).tolist()
